@@ -51,6 +51,8 @@ def families(tier):
     ok("ring2_pull", 3, 4)
     ok("ring2_tail_in", 3, 4)
     ok("ring2_pull_delay_after", 3, 4)
+    ok("ring2_dpull3", 4, 5)
+    ok("ring2_dpull2_pulls_at_connect", 0, 4)
     bad("ring2", 4, 6)
     bad("ring2", 4, 6, strict=True)
     bad("ring2_scale", 0, 6)
